@@ -130,8 +130,9 @@ pub fn terms(depth: usize) -> Vec<Term> {
     all
 }
 
-const LIB_SRC: &str = "(define-library (lib4 src) (export a b c d) (begin (define a 1) (define b 2) (define c 3) (define d 4)))";
-const LIB_FILE: &str = "(define-library (lib4 file) (export a b c d) (begin (define a 1) (define b 2) (define c 3) (define d 4)))";
+// (each source holds an unrelated library definition in front of the wanted one)
+const LIB_SRC: &str = "(define-library (other first) (export z) (begin (define z 0))) (define-library (lib4 src) (export a b c d) (begin (define a 1) (define b 2) (define c 3) (define d 4)))";
+const LIB_FILE: &str = "(define-library (other first) (export z) (begin (define z 0)))\n(define-library (lib4 file) (export a b c d) (begin (define a 1) (define b 2) (define c 3) (define d 4)))";
 pub const MODES: &[(&str, &str)] = &[("native", "(lib4 native)"), ("registered-source", "(lib4 src)"), ("file", "(lib4 file)")];
 
 pub struct Worker {
